@@ -325,7 +325,8 @@ def run_sample(tst, cfg, xs, buf=None):
 
 
 def cfg_json(cfg, n):
-    return {"method": cfg["method"], "estim": spec_estim(cfg), "N": cfg["N"], "u": rs(cfg["u"]), "t": rs(cfg["t"]),
+    return {"method": cfg["method"], "estim": spec_estim(cfg), "family": ("agrapa" if cfg["estim"].startswith("agrapa") else "-"),
+            "N": cfg["N"], "u": rs(cfg["u"]), "t": rs(cfg["t"]),
             "eta": rs(cfg["eta"]), "lam": rs(cfg["lam"]), "g": rs(cfg["g"]), "d": cfg["d"],
             "cs": ([rs(v) for v in cs_seq(cfg, n + 1)] if spec_estim(cfg) == "shrink" else []),
             "cg": rs(cfg["cg"]), "p2": rs(cfg["p2"]), "ro": cfg["ro"]}
